@@ -734,6 +734,7 @@ def gen_sparse_history(ctx, sizes=None):
         live.append(a)
     sizes = list(sizes or rng.sample(SPARSE_SIZES, rng.choice([1, 1, 2])))
     sizes.sort()
+    sizes = [n for i, n in enumerate(sizes) if i == 0 or n > sizes[i - 1] + 4000]   # room for what is appended
     for n in sizes:
         ops.append(('X', key, n))
         budget = 2900 // len(sizes)
